@@ -145,6 +145,18 @@ Theorem cyl_normals_outward : forall (n : nat) (rad h k : R), (3 <= n)%nat -> 0 
 Proof. exact CylinderGeom.cyl_normals_outward. Qed.
 Print Assumptions cyl_normals_outward.
 
+(* the four triangles of one column (two side triangles, one wedge of either cap) contribute exactly the wedge of the
+   inscribed n-gon prism to the divergence sum: 6 * (1/2 * rad^2 * sin (2*pi/n) * h); n columns: the prism's volume *)
+Theorem cyl_column_volume : forall (n : nat) (rad h k : R), (3 <= n)%nat ->
+  let inc := 1 / INR n * 2 * PI in
+  let a0 := inc * k in let a1 := inc * (k + 1) in
+  let T0 : rvec := (cos a0 * rad, h / 2, sin a0 * rad) in let B0 : rvec := (cos a0 * rad, - (h / 2), sin a0 * rad) in
+  let T1 : rvec := (cos a1 * rad, h / 2, sin a1 * rad) in let B1 : rvec := (cos a1 * rad, - (h / 2), sin a1 * rad) in
+  rvol6 [(B0, T0, T1); (B0, T1, B1); (T0, (0, h / 2, 0), T1); (B1, (0, - (h / 2), 0), B0)]
+  = 6 * (1 / 2 * rad * rad * sin (2 * PI / INR n) * h).
+Proof. exact CylinderGeom.cyl_column_volume. Qed.
+Print Assumptions cyl_column_volume.
+
 (* ---------- the UV sphere over the reals: faces point outward ----------
    ring vertices are (sin phi * cos theta, cos phi, sin phi * sin theta) * radius with phi = pi*(i+1)/rows
    (0 < phi < pi, consecutive rings pi/rows apart) and theta = 2*pi*j/columns (consecutive columns 2*pi/columns < pi
